@@ -31,9 +31,9 @@ type symProver struct {
 	assumed map[*ssa.Function]string // symmetric by assumption (table), reported as such
 	used    map[string]bool          // which lemmas/assumptions were used
 	depth   int
-	lastTry string // why the most recent failed alternative failed
-	subWhy  string // why a callee could not be shown symmetric
-	mirror  map[ssa.Value]ssa.Value   // additional mirrored leaves (x evaluated on (a,b) equals mirror[x] on (b,a))
+	lastTry string                   // why the most recent failed alternative failed
+	subWhy  string                   // why a callee could not be shown symmetric
+	mirror  map[ssa.Value]ssa.Value  // additional mirrored leaves (x evaluated on (a,b) equals mirror[x] on (b,a))
 	skip    map[*ssa.BasicBlock]bool // blocks whose branch conditions are accounted for elsewhere
 }
 
